@@ -1,13 +1,21 @@
 (* Correspondence and specification checks for io/cdedb.rs (C05, C11, C12, C13, C08 external quality) *)
 From Coq Require Import List ZArith Bool Arith NArith String.
-Require Import HP1 Cao1 Cao3 Score1 Spec Json Cde CorrSel.
+From Flocq Require Import IEEE754.Binary IEEE754.Bits.
+Require Import HP1 Cao1 Cao3 Score1 Spec Json Cde CorrSel F32.
 Import ListNotations.
 Open Scope nat_scope.
 
 Definition exp_p := (Z * string * list (nat * nat))%type.
-Definition exp_c := (Z * string * Z * Z * list nat * bool * list string * nat)%type.   (* dbid,name,min,max,instr,fixed,hidden,offset increase *)
+Definition exp_c := (Z * string * Z * Z * list nat * bool * list string * Z * Z)%type.   (* dbid,name,min,max,instr,fixed,hidden,factor bits,offset bits *)
 Definition exp_read := (list exp_p * list exp_c * option (nat * list nat) * Z * Z * nat)%type.   (* ..., quality, event id, track id, ignored regs *)
-Definition read_case := (json * option Z * bool * bool * option exp_read)%type.
+Definition read_case := (json * option Z * bool * bool * option string * option string * option exp_read)%type.
+
+(* `v.as_f64() as f32` of a numeric JSON value *)
+Definition f32_of_json (j : json) : binary32 := match j with JInt z => f32_of_Z z | JNum b => b32_of_bits b | _ => f32_of_Z 0 end.
+Definition exp_factor (fo : option json * option json) : binary32 := match fst fo with Some v => f32_of_json v | None => f32_of_Z 1 end.
+(* room_offset after adapt_course_for_invisible_participants: offset + (invisible participants as f32) * factor *)
+Definition exp_offset (fo : option json * option json) (inv : nat) : binary32 :=
+  addf (match snd fo with Some v => f32_of_json v | None => f32_of_Z 0 end) (mulf (f32_of_Z (Z.of_nat inv)) (exp_factor fo)).
 
 Definition pair_nn_eqb (a b : nat * nat) : bool := Nat.eqb (fst a) (fst b) && Nat.eqb (snd a) (snd b).
 Definition read_agree (r : result (list rpart * list rcourse * ramb)) (e : option exp_read) : bool :=
@@ -15,9 +23,11 @@ Definition read_agree (r : result (list rpart * list rcourse * ramb)) (e : optio
   | RErr _, None => true
   | ROk (ps, cs, amb), Some (eps, ecs, eq, eid, tid, nign) =>
     eqb_list (fun p (ep : exp_p) => let '(d, n, ch) := ep in (rp_dbid p =? d)%Z && String.eqb (rp_name p) n && eqb_list pair_nn_eqb (rp_choices p) ch) ps eps &&
-    eqb_list (fun c (ec : exp_c) => let '(d, n, mn, mx, ins, fx, hid, off) := ec in
+    eqb_list (fun (cf : rcourse * (option json * option json)) (ec : exp_c) => let '(d, n, mn, mx, ins, fx, hid, fb, ob) := ec in let c := fst cf in
                (rc_dbid c =? d)%Z && String.eqb (rc_name c) n && (rc_min c =? mn)%Z && (rc_max c =? mx)%Z && eqb_list Nat.eqb (rc_instr c) ins &&
-               Bool.eqb (rc_fixed c) fx && eqb_list String.eqb (rc_hidden c) hid && Nat.eqb (rc_inv_instr c + rc_inv_att c) off) cs ecs &&
+               Bool.eqb (rc_fixed c) fx && eqb_list String.eqb (rc_hidden c) hid &&
+               (bits_of_b32 (exp_factor (snd cf)) =? fb)%Z && (bits_of_b32 (exp_offset (snd cf) (rc_inv_instr c + rc_inv_att c)) =? ob)%Z)
+             (combine cs (ra_fields amb)) ecs && Nat.eqb (List.length (ra_fields amb)) (List.length cs) &&
     (match ra_qual amb, eq with
      | Some (ni, pens), Some (eni, epens) => Nat.eqb ni eni && eqb_list Nat.eqb pens epens
      | None, None => true | _, _ => false end) &&
@@ -63,7 +73,7 @@ Definition penalties_okb (j : json) (e : exp_read) : bool :=
                                                             | Some (JArr l) =>
                                                               forallb (fun ch : nat * nat =>
                                                                 match nth_error l (snd ch), nth_error ecs (fst ch) with
-                                                                | Some (JInt cid), Some ec => let '(d, _, _, _, _, _, _, _) := ec in (cid =? d)%Z
+                                                                | Some (JInt cid), Some ec => let '(d, _, _, _, _, _, _, _, _) := ec in (cid =? d)%Z
                                                                 | _, _ => false end) chs
                                                             | _ => false end
                                                | None => false end
@@ -120,8 +130,8 @@ Definition ext_quality_okb (j : json) (ic ia : bool) (e : exp_read) : bool :=
    | 4 C12: penalty = position in the original choice list | 8 C12: documents that must be refused are refused
    | 16 C08: ignored pre-assigned participants are rated by their course's rank in the original choice list *)
 Definition check_read (c : read_case) : N :=
-  let '(j, tr, ic, ia, e) := c in
-  ((if read_agree (read_full j tr ic ia) e then 1 else 0) + (match e with Some _ => 2 | None => 0 end) +
+  let '(j, tr, ic, ia, ff, of, e) := c in
+  ((if read_agree (read_fields j tr ic ia ff of) e then 1 else 0) + (match e with Some _ => 2 | None => 0 end) +
    (match e with Some ex => if penalties_okb j ex then 4 else 0 | None => 4 end) +
    (match e with Some _ => if must_refuseb j tr then 0 else 8 | None => 8 end) +
    (match e with Some ex => if ext_quality_okb j ic ia ex then 16 else 0 | None => 16 end))%N.
